@@ -102,6 +102,68 @@ def validate_trace(chk, events, ndocs, vectors, cfg="Trace_Store.cfg"):
     return accepted_runs, rejected
 
 
+def binding_selftest(chk, events, ndocs):
+    """Four corruptions of accepted runs -- a hook's event lost, two events swapped, an answer changed -- each of
+    which Trace_Store has to reject; otherwise what it accepted means nothing."""
+    import copy
+    by = {}
+    for e in events:
+        by.setdefault(e["vec"], []).append(e)
+
+    def lose(kind):
+        def f(run):
+            ks = [k for k, e in enumerate(run) if e["ev"] == kind]
+            # only where the metadata is written afterwards (an on-disk build that got that far)
+            ks = [k for k in ks if any(x["ev"] in ("meta_truncated", "before_remove_index") for x in run[k + 1:k + 4])]
+            return (run[:ks[0]] + run[ks[0] + 1:]) if ks else None
+        return f
+
+    def swap_meta_commit(run):
+        for k in range(len(run) - 3):
+            if [x["ev"] for x in run[k:k + 4]] == ["after_commit", "after_reload", "meta_truncated", "after_write_meta"]:
+                return run[:k] + [run[k + 2], run[k + 3], run[k], run[k + 1]] + run[k + 4:]
+        return None
+
+    def stale_answer(run):
+        ks = [k for k, e in enumerate(run) if e["ev"] == "answers" and e.get("fresh")]
+        if not ks:
+            return None
+        run = copy.deepcopy(run)
+        run[ks[-1]]["fresh"] = False
+        return run
+    kinds = [("event of the commit hook lost before the metadata is written", lose("after_commit")),
+             ("event of the invalidation hook lost before the index is removed", lose("meta_invalidated")),
+             ("metadata written before the commit", swap_meta_commit),
+             ("a ready start answers differently from a fresh build", stale_answer)]
+    w = vlib.workdir("c15-selftest")
+    report = {}
+    for kind, fn in kinds:
+        done = 0
+        rejected = 0
+        for vec, run in by.items():
+            c = fn(run)
+            if c is None:
+                continue
+            path = os.path.join(w, "t.ndjson")
+            vlib.write_ndjson(path, c)
+            t = tlc("Trace_Store", "Trace_Store.cfg", workers=1, env={"TRACE": path, "NDOCS": ndocs}, deque=True, timeout=600)
+            reached = None
+            for line in t.printed:
+                if line.startswith('<<"REACHED"'):
+                    reached = int(line.split(",")[1])
+            done += 1
+            rejected += reached is not None and reached < len(c) + 1
+            if done >= 2:
+                break
+        if done:
+            report[kind] = "%d of %d corrupted runs rejected" % (rejected, done)
+            if not rejected:
+                chk.cov.setdefault("binding_selftest", {})["Trace_Store"] = report
+                raise ToolError("binding self-test: Trace_Store accepted runs corrupted by: %s" % kind)
+    vlib.log("[selftest] Trace_Store: " + "; ".join("%s: %s" % kv for kv in report.items()))
+    chk.cov.setdefault("binding_selftest", {})["Trace_Store"] = report
+
+
 def model(chk, p):
     w = vlib.workdir("c15-cfg")
     base = dict(InvalidateFirst="TRUE", MetaBeforeCommit="FALSE", NDocs=p["NDocs"])
@@ -208,6 +270,8 @@ def run(chk):
     info, results, events = run_schedules(chk, vecs, p["NDocs"])
     judge(chk, results)
     accepted, rejected = validate_trace(chk, events, info["shipped"], vecs)
+    if not rejected:
+        binding_selftest(chk, events, info["shipped"])
     chk.cov["traces_validated_against_impl"] = accepted
     chk.cov["exhaustive"] = (len(vecs) == total)
     chk.cov["rule"] = ("every maximal behaviour of MC_Store.tla with the tier's bounds (initial directory x external fault x "
